@@ -137,6 +137,73 @@ def gen_operand(rng, depth, shapes, kind=None):
     return t
 
 
+def lit_of(points, nranks):
+    """{point tuple: value} -> tree literal (coordinates ascending)"""
+    if nranks == 0:
+        return points[()]
+    heads = sorted({p[0] for p in points})
+    return [[h, lit_of({p[1:]: v for p, v in points.items() if p[0] == h}, nranks - 1)] for h in heads]
+
+
+def gen_cancel_case(rng, name):
+    """engineered exact cancellation: an output of rank >= 2, a contracted variable k placed OUTSIDE the
+    output variables in the loop order, and operands such that for several values of the outermost
+    output variable m the contributions of k = 0 and k = 1 are (a, -a) for every element of the output
+    row while k >= 2 contributes nothing: the row is created (populate pass k = 0), then returns to
+    exactly zero (pass k = 1) as a PRE-EXISTING sub-fiber, while other rows live on / are created later"""
+    out, ops = FAMILY[name]
+    allv = sorted({v for bs in ops for v in bs})
+    contracted = [v for v in allv if v not in out]
+    assert len(out) >= 2 and contracted
+    k = rng.choice(contracted)
+    shape = [rng.randint(2, 4) for _ in range(max(allv) + 1)]
+    tiles = [[v, rng.randint(1, shape[v] + 1)] for v in allv if rng.random() < 0.35]
+    tiled = {v for v, _ in tiles}
+    orders = list(loop_orders(allv, tiled))
+    klead = 2 * k + 1 if k in tiled else 2 * k
+    outside = [o for o in orders if o[0] == klead]
+    order = rng.choice(outside if rng.random() < 0.8 else orders)
+    m = next(l // 2 for l in order if l // 2 in out)          # root rank of the output as produced
+    sel = set(rng.sample(range(shape[m]), rng.randint(1, max(1, shape[m] - 1))))
+    with_k = [j for j, bs in enumerate(ops) if k in bs]
+    A = rng.choice(with_k)
+    p_absent = rng.choice([0.0, 0.0, 0.2, 0.4])
+
+    def val():
+        return rng.choice([-3, -2, -1, 1, 2, 3])
+
+    trees = []
+    for j, bs in enumerate(ops):
+        pts = {}
+        if k not in bs:
+            for p in itertools.product(*[range(shape[v]) for v in bs]):
+                if rng.random() >= p_absent:
+                    pts[p] = val()
+        else:
+            ki = bs.index(k)
+            rest = [v for v in bs if v != k]
+            for q in itertools.product(*[range(shape[v]) for v in rest]):
+                def at(kk):
+                    return q[:ki] + (kk,) + q[ki:]
+                cancels = j == A and (m not in bs or q[rest.index(m)] in sel)
+                if rng.random() >= p_absent:
+                    base = val()
+                    pts[at(0)] = base
+                    if cancels:
+                        pts[at(1)] = -base
+                    elif j != A:
+                        pts[at(1)] = base           # the other factors repeat at k = 1
+                    elif rng.random() >= p_absent:
+                        pts[at(1)] = val()
+                for kk in range(2, shape[k]):
+                    if not cancels and rng.random() >= max(p_absent, 0.3):
+                        pts[at(kk)] = val()
+        trees.append(lit_of(pts, len(bs)) if pts else [])
+    return {"name": name, "out": list(out), "ops": [list(b) for b in ops], "shape": shape,
+            "trees": trees, "order": order, "tiles": tiles, "style": rng.choice([0, 0, 1, 2]),
+            "est": [rng.random() < 0.2 for _ in ops]}
+
+
 def gen_case(rng, name=None, tile_p=None, style=None, kind=None, est_p=None):
     if name is None:
         name = rng.choice(list(FAMILY) + ["random"] * 6)
@@ -240,6 +307,12 @@ def streams(tier, rng):
         c = gen_case(rng, name, tile_p=rng.choice([0.0, 0.5, 1.0]), kind="ragged", est_p=1.0)
         cases.append(c)
     yield ("estimated-shape-ragged", cases, False)
+    # (c) exact cancellation of whole output rows that already exist (reduction outside the output
+    # ranks, possibly tiled): the populate pass meets a pre-existing sub-fiber that has become empty
+    canc = [n for n, (out, ops) in FAMILY.items()
+            if len(out) >= 2 and any(v not in out for b in ops for v in b)]
+    cases = [gen_cancel_case(rng, canc[i % len(canc)]) for i in range(120 if tier == "quick" else 2000)]
+    yield ("cancelling-rows-reduction-outside", cases, False)
     if tier == "thorough":
         cases = []
         for name in ["matmul", "chain3", "elem2_T", "batched", "mttkrp_ish"]:
@@ -269,7 +342,8 @@ def describe(case):
             "explicit_zero": any(U.has_explicit_default(t, 0) for t in case["trees"]),
             "empty_subfiber": any(U.has_empty_sub(t, 0) for t in case["trees"]),
             "estimated_shape": any(case.get("est") or []),
-            "two_zero_rows": any(two_zero_rows(t) for t in case["trees"])}
+            "two_zero_rows": any(two_zero_rows(t) for t in case["trees"]),
+            "reduction_outside_output": bool(case["out"]) and case["order"][0] // 2 not in case["out"]}
 
 
 def case_to_coq(c):
